@@ -68,7 +68,7 @@ class Problem:
         ut = '[' + ';'.join(f'({gnat(x)},[' + ';'.join(gnat(c) for c in rs) + '])' for x, rs in sorted(self.unary.items())) + ']'
         theta = gZ(-self.theta_odd) if self.theta_odd is not None else gZ(0)
         return (f'(Pb {rows(self.tag)} {rows(self.dep)} {bt} {ut} [{";".join(gnat(r) for r in self.roots)}] {gZ(self.pen8 * 2)} {gbool(self.nbest <= 1)} '
-                f'{gnat(self.pruning)} {gbool(self.use_beta)} {theta} {gnat(min(self.max_step, 100000))} {gnat(self.nbest)})')
+                f'{gnat(self.pruning)} {gbool(self.use_beta)} {theta} {gnat(min(self.max_step, 5000))} {gnat(self.nbest)})')
 
 
 def node_deriv(nd):
